@@ -5,6 +5,7 @@ package flamego
 // C15 harness: Recovery contains every panic raised behind it.
 
 import (
+	gocontext "context"
 	"errors"
 	"io"
 	"net/http"
@@ -41,8 +42,9 @@ func VH_C15_recovery() {
 	early := vx.Bool() // a middleware in front of Recovery already sent a status
 	s0 := vx.Int(100, 999)
 	envc := vx.Choice(3)
-	refl := vx.Bool()   // the panicking handler is called through reflection (inject.callInvoke) instead of the ContextInvoker fast path
-	nested := vx.Bool() // pass-through handlers call Next() explicitly (panic inside nested Next) or just return
+	cancelFirst := vx.Bool() // the request context is cancelled (deadline, client gone) just before the panic
+	refl := vx.Bool()        // the panicking handler is called through reflection (inject.callInvoke) instead of the ContextInvoker fast path
+	nested := vx.Bool()      // pass-through handlers call Next() explicitly (panic inside nested Next) or just return
 
 	envs := []EnvType{EnvTypeDev, EnvTypeProd, EnvTypeTest}
 	// the mode that counts is the one in force when the panic happens: the
@@ -78,6 +80,11 @@ func VH_C15_recovery() {
 		}
 		if phase == 1 {
 			_, _ = c.ResponseWriter().Write([]byte("p"))
+		}
+		if cancelFirst {
+			rc := c.Request().Context().(*vReqCtx)
+			rc.err = gocontext.Canceled
+			close(rc.done)
 		}
 		switch kind {
 		case 0:
@@ -119,7 +126,7 @@ func VH_C15_recovery() {
 
 	SetEnv(envs[envc])
 	spy := &vSpy{strict: kind == 8}
-	req := &http.Request{Method: "GET", URL: &url.URL{Path: "/"}, Header: http.Header{}}
+	req := (&http.Request{Method: "GET", URL: &url.URL{Path: "/"}, Header: http.Header{}}).WithContext(&vReqCtx{done: make(chan struct{})})
 	escaped := false
 	func() {
 		defer func() {
@@ -192,5 +199,5 @@ func VH_C15_recovery() {
 	if envs[envc] == EnvTypeDev {
 		nbytes = -1 // the development page embeds a stack trace, which is stubbed in the interpreter
 	}
-	vx.Observe("recovered", kind, phase, early, refl, envc, spy.firstCode, nbytes, len(post))
+	vx.Observe("recovered", kind, phase, early, refl, cancelFirst, envc, spy.firstCode, nbytes, len(post))
 }
